@@ -7,4 +7,6 @@ ENGINE = 'E2+E3'
 
 def run(ctx):
     res = run_e2('C01', ctx, ['c01_iff', 'c01_nameerror'], 'twin_c01')
+    from vlib.e3_driver import collect
+    res.merge(collect('C01', ctx, ('c01b',), 'no TypeError at request time'))
     return res
